@@ -1290,6 +1290,10 @@ def gen_net(r, n, tier):
         yield f"net tcp m{variant_m} any c1.127.0.0.1,Z1.20000," + ",".join(["L"] * 11) + ",c2.127.0.0.1,q2,L,c3.127.0.0.1,q3,q2,S,p2,p3"
     yield "net tcp m4 any c1.127.0.0.1,c2.127.0.0.1,Z1.20000,Z2.20000," + ",".join(["L"] * 20) + ",c3.127.0.0.1,q3,H,p3"
     yield "net tcp m1 any c1.127.0.0.1,Z1.20000," + ",".join(["L"] * 9) + ",c2.127.0.0.1,q2,c3.127.0.0.1,q3,p2"
+    # decode-level changes (more than a session's command queue holds) while the session is blocked in a
+    # write: the outstanding replies all arrive, in order, and the session goes on serving afterwards
+    for l in (9, 14):
+        yield f"net tcp m2 any c1.127.0.0.1,c2.127.0.0.1,P1.20000.{l},q1,q2,L,q1"
     # a shutdown requested while the server's command queue (8 slots) is full or nearly full, with the
     # handle kept alive, must not be lost: the task ends, connections are refused afterwards
     for k in (0, 7, 8):
@@ -1613,6 +1617,12 @@ def gen_cl_enc(r, n, tier):
     for ev in ("Xe", "Xf", "X" + hx(bytes([0, 0, 0, 1, 0, 3, 1, 1, 0]))):
         yield f"cl t d000 q16 m0 N,E,R0.a.rh.1.50.0.1,{ev},N,R0.b.rh.1.50.0.1,A60,R0.c.rh.1.50.0.1,A60"
     yield "cl t d000 q16 m1 N,E,R0.a.rh.1.50.0.1,A50,N,R0.b.rh.1.50.0.1,A60"
+    # a failing transport write (BrokenPipe / Interrupted): nothing of the request is transmitted - in
+    # particular it is not written a second time -, the session ends, the next connection starts clean
+    for w in ("W", "Wi"):
+        for fr in ("t", "r"):
+            yield f"cl {fr} d000 q16 m0 N,E,{w},R0.a.rh.1.50.0.1,A60,N,R0.b.rh.1.50.0.1,A60"
+            yield f"cl {fr} d000 q16 m0 N,E,R0.a.wr.1.50.9.4660,A60,{w},R0.b.wC.1.50.3.10110,R0.c.rh.1.50.0.1,A60"
     for kind, args in (("wc", "9.1"), ("wc", "65535.0"), ("wr", "9.4660"), ("wr", "65535.65535")):
         for fr in ("t", "r"):
             yield f"cl {fr} d000 q16 m0 N,E,R0.a.{kind}.7.50.{args},A60"
@@ -1644,6 +1654,15 @@ def gen_cl_resp(r, n, tier):
     bodies = [b"", b"\x01", b"\x01\x55", b"\x02\x55", b"\x04\x00\x01\x00\x02", b"\x00\x09\xff\x00",
               b"\x00\x09\x12\x34", b"\x00\x03\x00\x05", b"\x00\x03\x00\x03", b"\x00\x09\xff\x01", b"\x02"]
     fbytes = range(256) if tier == "thorough" else list(range(0, 24)) + list(range(0x80, 0x98)) + [0xFF]
+    # a frame with a foreign transaction id (late reply, unsolicited) in front of a long reply, in ONE
+    # delivery: the reply starts at a non-zero offset of the 260-byte receive buffer and crosses its end
+    regs = bytes((7 * i + 3) % 256 for i in range(250))
+    for cnt in (125, 100, 60):
+        reply = mbap(0, 1, bytes([3, 2 * cnt]) + regs[:2 * cnt])
+        for stale in (mbap(9, 1, bytes([3, 2, 0, 1])), mbap(9, 1, bytes([3, 200]) + regs[50:250]), mbap(9, 1, bytes([1, 1, 5])) * 3,
+                      mbap(9, 1, bytes([0x83, 2])) + mbap(8, 1, bytes([3, 100]) + regs[:100])):
+            yield f"cl t d000 q16 m0 N,E,R0.a.rh.1.50.0.{cnt},X{hx(stale + reply)},A60"
+            yield f"cl t d000 q16 m0 N,E,R0.a.rh.1.50.0.{cnt},X{hx(stale)},X{hx(reply[:100])},X{hx(reply[100:])},A60"
     for kind, args, d in fixed:
         for fb in fbytes:
             for body in bodies:
@@ -1851,7 +1870,7 @@ def gen_cl_task(r, n, tier, focus="mix"):
         # exhaustive: every way the first request can end, followed by a second request - shows,
         # by behaviour, which request errors end the session (SessionError::from_request_err)
         good = mbap(0, 1, bytes([1, 1, 0x55]))
-        events = ["Xe", "Xf", "W", "X" + hx(bytes([0, 0, 0, 1, 0, 4, 1, 1, 1, 0x55])), "X" + hx(bytes([0, 0, 0, 0, 0, 0, 1])),
+        events = ["Xe", "Xf", "W", "Wi", "X" + hx(bytes([0, 0, 0, 1, 0, 4, 1, 1, 1, 0x55])), "X" + hx(bytes([0, 0, 0, 0, 0, 0, 1])),
                   "X" + hx(bytes([0, 0, 0, 0, 1, 0, 1])), "A50", "X" + hx(mbap(0, 1, bytes([0x81, 2]))),
                   "X" + hx(mbap(0, 1, bytes([3, 2, 0, 1]))), "X" + hx(mbap(9, 1, bytes([1, 1, 0x55]))), "X" + hx(good),
                   "X" + hx(mbap(0, 1, bytes([1, 2, 0x55])))]
@@ -1866,8 +1885,8 @@ def gen_cl_task(r, n, tier, focus="mix"):
                            f"N,R0.b.rh.1.100.0.1,X{hx(good2)},A200")
         for ev in events:
             for m in (0, 1):
-                first = "R0.a.rc.1.50.0.8" if ev != "W" else "W,R0.a.rc.1.50.0.8"
-                tail = ev if ev != "W" else "A1"
+                first = "R0.a.rc.1.50.0.8" if ev not in ("W", "Wi") else ev + ",R0.a.rc.1.50.0.8"
+                tail = ev if ev not in ("W", "Wi") else "A1"
                 yield f"cl t d000 q16 m{m} N,E0,{first},{tail},R0.b.rc.1.50.0.8,A60,A60"
     scripts = []
     for i in range(n):
@@ -2072,6 +2091,7 @@ def gen_srv_wfail(r, n, tier):
         for k in range(0, len(frames) + 1):
             yield f"srv {fr} d000 - {units} W{k},{','.join(frames)}"
             yield f"srv {fr} d000 - {units} W{k},{''.join(frames)}"
+            yield f"srv {fr} d000 - {units} W{k}i,{','.join(frames)}"
             yield f"srv {fr} d000 deny.r {units} W{k},{','.join(frames)}" if not rtu_mode else f"srv {fr} d322 - {units} W{k},{','.join(frames)},!s"
     half = n // 2
     base = list(gen_srv(Rng(r.next(), "a"), half, tier, False))[-half:] + list(gen_srv(Rng(r.next(), "b"), half, tier, True))[-half:]
@@ -2083,6 +2103,39 @@ def gen_srv_wfail(r, n, tier):
         k = r.below(min(nsteps, 6) + 1) if r.chance(3, 4) else r.below(3)
         tok[5] = f"W{k}," + tok[5]
         yield " ".join(tok)
+
+
+def gen_srv_edge(r, n, tier):
+    """positions inside the 260-byte receive buffer x cancellation x lock contention:
+    (a) k small pipelined requests followed by a long write-multiple; the first delivery ends exactly at
+        (or one byte before / after) the end of the receive buffer, then a ChangeDecoding command
+        cancels the pending read (select! in run_one), then the rest arrives;
+    (b) an application thread holds one unit's handler mutex while a unicast / broadcast write arrives"""
+    units = "1:s0.0.300.3,s2.0.300.5;2:s0.0.50.7,s2.0.300.8"
+    for rtu_mode in (False, True):
+        fr = "r" if rtu_mode else "t"
+        mk = (lambda tx, u, pdu: rtu(u, pdu)) if rtu_mode else mbap
+        small = lambda i: mk(i, 1, bytes([3]) + be16(i) + be16(1))
+        regs = b"".join(be16((977 * i + 11) % 65536) for i in range(123))
+        for nregs in (123, 100):
+            long = mk(99, 2, bytes([16]) + be16(1) + be16(nregs) + bytes([2 * nregs]) + regs[:2 * nregs])
+            for k in range(1, 12):
+                data = b"".join(small(i) for i in range(k)) + long + small(50)
+                for cut in (259, 260, 261):
+                    if cut >= len(data):
+                        continue
+                    for cmd in ("!d322", "!d000,!d111"):
+                        yield f"srv {fr} d000 - {units} {hx(data[:cut])},{cmd},{hx(data[cut:])}"
+                    yield f"srv {fr} d000 - {units} {hx(data[:cut])},{hx(data[cut:cut + 1])},!d322,{hx(data[cut + 1:])}"
+    # lock contention (real time: 40 ms per case)
+    eight_w = [bytes([5, 0, 2, 0xFF, 0]), bytes([6, 0, 2, 0x12, 0x34]), bytes([15, 0, 2, 0, 3, 1, 5]),
+               bytes([16, 0, 2, 0, 2, 4, 0, 7, 0, 8])]
+    sentinel = hx(rtu(1, bytes([3, 0, 2, 0, 2]))) + "," + hx(rtu(2, bytes([3, 0, 2, 0, 2])))
+    for pdu in eight_w:
+        for held in (1, 2):
+            yield f"srv r d000 - {units} K{held}.40,{hx(rtu(0, pdu))},{sentinel}"
+        yield f"srv r d000 - {units} K2.40,{hx(rtu(2, pdu))},{sentinel}"
+        yield f"srv t d000 - {units} K1.40,{hx(mbap(3, 1, pdu))},{hx(mbap(4, 1, bytes([3, 0, 2, 0, 2])))}"
 
 
 def gen_dec_srv(r, n, tier):
@@ -2140,6 +2193,7 @@ SUITES = {
     "cl_resp": gen_cl_resp,
     "srv_fuzz": gen_srv_fuzz,
     "srv_wfail": gen_srv_wfail,
+    "srv_edge": gen_srv_edge,
     "rdr_fuzz": gen_rdr_fuzz,
     "dec_srv": gen_dec_srv,
     "dec_rdr": gen_dec_rdr,
